@@ -179,7 +179,7 @@ def generate(run):
     rng = run.rng
     cases = fixed_cases()
     if run.tier == "quick":
-        plan = dict(small=45, nmax=5, medium=45, nsplits=7, smallcap=12, big=5, steered=25)
+        plan = dict(small=120, nmax=5, medium=90, nsplits=7, smallcap=25, big=6, steered=60)
     else:
         plan = dict(small=400, nmax=6, medium=300, nsplits=14, smallcap=80, big=30, steered=200)
     for _ in range(plan["small"]):
